@@ -20,6 +20,7 @@ THEOREMS = [
     "CKT.C10Sem.run_flatMap_grp", "CKT.C10Sem.lifted_sub", "CKT.C10Sem.separate_recompose",
     # T10.3: automatic labelling gives None to exactly the idle qubits (C10Auto)
     "CKT.C10.good_step", "CKT.C10.good_components", "CKT.C10.autoLabels_none_iff", "CKT.C10.conn_components", "CKT.C10.autoLabels_same_connected",
+    "CKT.C10.step_count", "CKT.C10.sweep_count", "CKT.C10.components_stable", "CKT.C10.autoLabels_connected_same", "CKT.C10.separate_auto_ok",
 ]
 RULE = ("circuits on 1-6 qubits over every gate family, several registers, barriers of every span, idle qubits, pre-placed cut gates; label "
         "sequences over arbitrary hashables incl. None for idle (and, as malformed input, non-idle) qubits, and automatic labelling; Pauli "
